@@ -451,6 +451,7 @@ fn unrepresentable_pool() -> &'static Vec<char> {
             encoding_rs::EUC_KR,
             encoding_rs::BIG5,
         ];
+        let _ = &encs;
         let mut v = vec![];
         let ranges: [(u32, u32); 7] = [
             (0x0590, 0x05FF), // Hebrew
@@ -482,6 +483,47 @@ fn unrepresentable_pool() -> &'static Vec<char> {
             v.push('\u{2212}');
         }
         v
+    })
+}
+
+/// conservative "exists in none of the ten codepages": in no reference table and refused by every Windows-labelled encoder
+fn is_unrepresentable(c: char) -> bool {
+    let encs = [
+        encoding_rs::WINDOWS_1252,
+        encoding_rs::WINDOWS_1253,
+        encoding_rs::WINDOWS_1251,
+        encoding_rs::WINDOWS_1250,
+        encoding_rs::WINDOWS_1254,
+        encoding_rs::WINDOWS_1257,
+        encoding_rs::ISO_8859_7,
+        encoding_rs::ISO_8859_2,
+        encoding_rs::ISO_8859_13,
+        encoding_rs::SHIFT_JIS,
+        encoding_rs::GBK,
+        encoding_rs::EUC_KR,
+        encoding_rs::BIG5,
+    ];
+    if cp::in_any_table(c) || c == '^' || c.is_ascii() {
+        return false;
+    }
+    let mut buf = [0u8; 4];
+    let s = c.encode_utf8(&mut buf);
+    !encs.iter().any(|e| !e.encode(s).2)
+}
+
+/// characters whose code point differs from an encodable character's only above bit 16 or bit 8 (what a narrowed key, a
+/// truncating cast or a hash of the low bits would confuse with it), placed right after (or before) that character
+fn alias_strategy() -> impl Strategy<Value = (String, char, String)> {
+    let rep = cp::repertoire();
+    (text_strategy(6), any::<Index>(), 1u32..=16, any::<bool>(), any::<bool>(), text_strategy(6)).prop_map(move |(a, ix, k, high, before, b)| {
+        let e = rep[ix.index(rep.len())];
+        let cand = if high { e as u32 + (k << 16) } else { (e as u32 & 0xFF) | ((e as u32 >> 8).wrapping_add(k) << 8) };
+        let x = char::from_u32(cand).filter(|c| is_unrepresentable(*c)).unwrap_or('\u{10400}');
+        if before {
+            (format!("{a}{e}"), x, b)
+        } else {
+            (a, x, format!("{e}{b}"))
+        }
     })
 }
 
@@ -916,6 +958,8 @@ pub fn run(run: &mut Run) {
     let strat = (text_strategy(8), any::<Index>(), text_strategy(8)).prop_map(move |(a, ix, b)| (a, pool[ix.index(pool.len())], b));
     let n = run.budget(100_000, 5_000_000);
     run.prop(&Unrepresentable, strat, n);
+    let n = run.budget(100_000, 5_000_000);
+    run.prop(&Unrepresentable, alias_strategy(), n);
     // E
     run.enumerate(&MarkerPairs, 11 * 256, true, |i| Some(PairCase::Block(MARKERS[(i / 256) as usize].0, (i % 256) as u8)));
     // H
